@@ -206,9 +206,17 @@ func (wg *WaitGroup) Count() int { return wg.n }
 type Once struct {
 	done    bool
 	running bool
+	epoch   uint64
 }
 
+// Do runs f once per simulated run: a package-level Once (lazily initialised tables) would
+// otherwise make the first run of a process that reaches it longer than the same run executed
+// later, i.e. make a run depend on what the worker process ran before. Such initialisers are
+// idempotent; a Once inside an object does not outlive its run anyway.
 func (o *Once) Do(f func()) {
+	if e := simrt.Epoch(); o.epoch != e {
+		o.done, o.running, o.epoch = false, false, e
+	}
 	simrt.Yield()
 	if o.done {
 		return
